@@ -111,6 +111,15 @@ def parseTok (nt ng : Nat) (t : String) : Option Tok :=
   | ["M", gs, a] => do
       let gs ← natList gs '.'; let (s, p, o) ← parsePat a
       pure (.obs fun v => showQuads (v.queryMerged gs s p o))
+  | ["B", a] =>
+      -- QueryBuilder with exact constants over the default graph; `u` = a constant the dictionary has never seen
+      match splitOnChar a ',' with
+      | [s, p, o] =>
+        if s == "u" || p == "u" || o == "u" then some (.obs fun _ => showQuads [])
+        else do
+          let s ← optNat s; let p ← optNat p; let o ← optNat o
+          pure (.obs fun v => showQuads (v.queryMerged [0] s p o))
+      | _ => none
   | ["T", a] => match natList a with
       | some [s, p, o] => some (.obs fun v => showNats (v.graphsFor s p o))
       | _ => none
